@@ -49,6 +49,14 @@ Print Assumptions C04_any_start_after.
    routes an empty object name to the bucket handlers, and since fix 22ff0db ("POST /bucket?uploads"
    and browser-form uploads with an empty key are refused) no request can create it any more; before
    that fix it was reachable through a multipart upload, which the C09 check now guards. *)
+(* a marker at or behind the last key ends the walk: the page is empty and not truncated *)
+Theorem C04_marker_behind_every_key_ends_the_walk : forall pre delim mk objs marker,
+  marker <> [] -> (forall kv, In kv objs -> bleb (fst kv) marker = true) ->
+  page pre delim mk objs marker = empty_list /\ lr_truncated empty_list = false /\
+  lr_contents empty_list = [] /\ lr_prefixes empty_list = [].
+Proof. intros pre delim mk objs marker Hm Hall. split; [exact (page_marker_behind_every_key pre delim mk objs marker Hm Hall)|]. repeat split. Qed.
+Print Assumptions C04_marker_behind_every_key_ends_the_walk.
+
 Theorem C04_empty_key_refuted :
   exists objs, sorted objs /\ WalkProofs.data_some objs /\ forall n, walk n [] None 1 objs [] = None.
 Proof.
